@@ -184,7 +184,9 @@ var (
 	c01SigExistsSealed bool
 )
 
-func c01Model_bucketteerNewWriter(path string) (*bucketteer.Writer, error) { return &bucketteer.Writer{}, nil }
+func c01Model_bucketteerNewWriter(path string) (*bucketteer.Writer, error) {
+	return &bucketteer.Writer{}, nil
+}
 func c01Model_bucketteerPut(w *bucketteer.Writer, sig [64]byte) {
 	verifAssert(!c01SigExistsSealed, "C01.e2e: sig_exists entry after sealing")
 	c01SigExistsSeen = append(c01SigExistsSeen, solana.Signature(sig))
@@ -204,36 +206,23 @@ func c01Model_blocktimeWriteTo(idx *blocktimeindex.Index, w io.Writer) (int64, e
 	return 0, nil
 }
 
-// --- bigcache (cut): a map that keeps everything or nothing
-var (
-	c01Cache     = map[string][]byte{}
-	c01CacheKeep = true
-)
-
-func c01Model_bigcacheGet(c *bigcache.BigCache, key string) ([]byte, error) {
-	if v, ok := c01Cache[key]; ok {
-		return append([]byte{}, v...), nil
-	}
-	return nil, bigcache.ErrEntryNotFound
-}
-
-func c01Model_bigcacheSet(c *bigcache.BigCache, key string, entry []byte) error {
-	if c01CacheKeep {
-		c01Cache[key] = append([]byte{}, entry...)
-	}
-	return nil
+// The object cache: bigcache is the engine's model (ext_C03.go: string-keyed map, never evicts);
+// an evicting cache is covered by giving the epoch a fresh cache before the second round.
+func c01NewCache() *hugecache.Cache {
+	c, err := hugecache.NewWithConfig(context.Background(), bigcache.Config{})
+	verifAssert(err == nil && c != nil, "C01: cache construction failed")
+	return c
 }
 
 // payload lengths: with the 36-byte CID the section-length varint is 1 byte up to 91, 2 bytes
 // from 92 to 16347 and 3 bytes from 16348
 var (
 	c01E2ELens    = []int{91, 92, 16347, 16348, 70, 300}
-	c01E2EHdrLens = []int{59, 127, 128, 300}
+	c01E2EHdrLens = []int{59, 128, 127, 300}
 )
 
 func VerifC01E2E() {
-	bigcache.ErrEntryNotFound = errors.New("Entry not found") // library global (bigcache is not a source root)
-	c01CacheKeep = verifChoice("cacheKeeps", 2) == 1
+	cacheKeeps := verifChoice("cacheKeeps", 2) == 1
 	nl := verifParam("nlens", len(c01E2ELens))
 	// the CAR: header, then transaction, entry, block [, transaction, block], epoch (root last)
 	kinds := []iplddecoders.Kind{iplddecoders.KindTransaction, iplddecoders.KindEntry, iplddecoders.KindBlock}
@@ -316,10 +305,13 @@ func VerifC01E2E() {
 		slotToCidIndex:          slotIdx,
 		sigToCidIndex:           sigIdx,
 		blocktimeindex:          c01BtWritten,
-		allCache:                &hugecache.Cache{},
+		allCache:                c01NewCache(),
 	}
 	nt := 0
 	for round := 0; round < 2; round++ { // second round: answers may come from the cache
+		if round == 1 && !cacheKeeps {
+			ep.allCache = c01NewCache()
+		}
 		for i := range c01Objs {
 			o := &c01Objs[i]
 			oas, err := ep.FindOffsetAndSizeFromCid(ctx, o.cid)
